@@ -6,6 +6,7 @@ import (
 	"go/constant"
 	"go/token"
 	"go/types"
+	"strings"
 )
 
 // N-hexfn: a hex-digit decoder written as a function of one byte (jp's path
@@ -348,5 +349,89 @@ func ruleFirstByte(prog *Program, rep *Report) {
 	rep.Eval(n)
 	if n < 5 {
 		rep.Errorf("G-jp-first examined %d dispatch bytes (floor 5)", n)
+	}
+}
+
+// ruleClassEndpoints: G-endpoints. A byte is tested for membership in a character class with the
+// class's own endpoints: `'0' <= b && b <= '9'` to accept, `b < '0' || '9' < b` to reject. A test
+// that compares with an endpoint the other way round - `b <= '0'`, `'a' < b`, `b < 'f'`,
+// `'9' <= b` - drops the endpoint itself from the class (exponent digits stop at the first 0,
+// `f` is no hex digit, a field named `age` counts as exported).
+func ruleClassEndpoints(prog *Program, rep *Report, rels ...string) {
+	rep.Rules = append(rep.Rules, "G-endpoints: no comparison of a byte or rune with a character-class endpoint ('0' 'a' 'A' as lower, '9' 'f' 'z' 'F' 'Z' as upper endpoints) excludes the endpoint itself (x <= lo, lo < x, x >= hi, hi <= x, x < hi, hi > x and their mirrored spellings)")
+	lows := map[int64]bool{'0': true, 'a': true, 'A': true}
+	highs := map[int64]bool{'9': true, 'f': true, 'z': true, 'F': true, 'Z': true}
+	n := 0
+	for _, rel := range rels {
+		pk := prog.Pkg(rel)
+		if pk == nil {
+			rep.Errorf("G-endpoints: package %s not loaded", rel)
+			continue
+		}
+		info := pk.TypesInfo
+		for _, f := range pk.Syntax {
+			if strings.HasSuffix(prog.Fset.Position(f.Pos()).Filename, "_test.go") {
+				continue
+			}
+			cnt := map[string]int{}
+			ast.Inspect(f, func(k ast.Node) bool {
+				be, ok := k.(*ast.BinaryExpr)
+				if !ok {
+					return true
+				}
+				op := be.Op
+				if op != token.LSS && op != token.LEQ && op != token.GTR && op != token.GEQ {
+					return true
+				}
+				lit := func(e ast.Expr) (int64, bool) {
+					bl, ok := ast.Unparen(e).(*ast.BasicLit)
+					if !ok || bl.Kind != token.CHAR {
+						return 0, false
+					}
+					tv, ok := info.Types[e]
+					if !ok || tv.Value == nil {
+						return 0, false
+					}
+					v, ok := constant.Int64Val(tv.Value)
+					return v, ok
+				}
+				// normalise to  x OP lit
+				v, isR := lit(be.Y)
+				if !isR {
+					lv, isL := lit(be.X)
+					if !isL {
+						return true
+					}
+					v = lv
+					switch op {
+					case token.LSS:
+						op = token.GTR
+					case token.GTR:
+						op = token.LSS
+					case token.LEQ:
+						op = token.GEQ
+					case token.GEQ:
+						op = token.LEQ
+					}
+				}
+				if !lows[v] && !highs[v] {
+					return true
+				}
+				n++
+				bad := (lows[v] && (op == token.LEQ || op == token.GTR)) || (highs[v] && (op == token.GEQ || op == token.LSS))
+				if bad {
+					fn := enclosingFuncName(f, be.Pos())
+					base := fmt.Sprintf("%s.%s:%s", rel, fn, strings.ReplaceAll(types.ExprString(be), " ", ""))
+					cnt[base]++
+					rep.Violate(Finding{Rule: "G-endpoints", Key: fmt.Sprintf("%s#%d", base, cnt[base]), Pos: prog.Pos(be.Pos()), Msg: fmt.Sprintf("%s tests %s: the endpoint %q itself falls on the wrong side of the class", fn, types.ExprString(be), rune(v))})
+				}
+				return true
+			})
+		}
+	}
+	rep.Eval(n)
+	rep.Discharge("G-endpoints", strings.Join(rels, ","), strings.Join(rels, ","), fmt.Sprintf("%d endpoint comparisons examined", n))
+	if n < 4 {
+		rep.Errorf("G-endpoints examined %d endpoint comparisons (floor 4)", n)
 	}
 }
